@@ -79,6 +79,16 @@ POSITIONS = {
     "nested_expression": "    return (a + 0) {OP} (b * 1)",
     "compound_in_closure": None,
 }
+# compound assignment `target OP= b`: the parser, the checker and the lowering each rewrite it per kind of target
+COMPOUND_TARGETS = {
+    "compound_variable": "    mut x = a\n    x {OP}= b\n    return x",
+    "compound_list_element": "    mut xs = [a, a]\n    xs[1] {OP}= b\n    return xs[1]",
+    "compound_dict_value": "    mut d = {\"k\": a}\n    d[\"k\"] {OP}= b\n    return d[\"k\"]",
+    "compound_nested_subscript": "    mut g = [[a, a], [a, a]]\n    g[1][0] {OP}= b\n    return g[1][0]",
+    "compound_field": "    mut h = LHold{T}(v=a)\n    h.v {OP}= b\n    return h.v",
+    "compound_field_of_element": "    mut hs = [LHold{T}(v=a)]\n    hs[0].v {OP}= b\n    return hs[0].v",
+    "compound_element_in_loop": "    mut xs = [a, a]\n    for i in range(2):\n        xs[i] {OP}= b\n    return xs[1]",
+}
 
 
 def positions(out):
@@ -100,6 +110,16 @@ def positions(out):
                 decl = f"def {name}(a: int, b: int) -> {rt}:\n" + body.replace("{OP}", op)
             drv = "\n".join(f"println({name}({a}, {b}))" for a in INTS for b in INTS if b != 0)
             units.append(sem.Unit(name, (pre if pk in ("model_fields", "call_results") else "") + decl, drv, tags=("c04lang", pk, on)))
+    hold = "class LHoldI:\n    v: int\n\n\nclass LHoldF:\n    v: float\n\n\n"
+    for pk, body in COMPOUND_TARGETS.items():
+        for on, op in (("fd", "//"), ("md", "%"), ("dv", "/")):
+            for tn, ty, vals in (("int", "int", INTS), ("float", "float", [-7.5, -2.0, 0.5, 2.0, 9.0])):
+                if op == "/" and tn == "int":
+                    continue  # `/=` on an int target is a type error by the numeric rules
+                name = f"lp_{pk}_{on}_{tn}"
+                decl = f"def {name}(a: {ty}, b: {ty}) -> {ty}:\n" + body.replace("{OP}", op).replace("{T}", "I" if tn == "int" else "F")
+                drv = "\n".join(f"println({name}({a}, {b}))" for a in vals for b in vals if b != 0)
+                units.append(sem.Unit(name, (hold if "field" in pk else "") + decl, drv, tags=("c04lang", f"{pk}:{tn}", on)))
     # declarations shared by several units must not be duplicated in one pack: build each unit as its own program
     chk = c01.check_units(units)
     acc = [u for u, c in zip(units, chk) if c["check"]["status"] == "ok"]
